@@ -117,6 +117,10 @@ class Std(Scenario):
             first = not any(x.addr == a and x.n_connects for x in w.conns)
             can_api = c.close_req is None or self.api_after_close
             if ph == 'new' and can_api:
+                if not first and left('setwin') > 0:    # the application configures the rebuilt protocol before connecting
+                    for n in self.windows:
+                        if n != c.window:
+                            out.append(('setwin', a, n))
                 if left('badconnect') > 0:
                     out.append(('badconnect', a, first))
                 if left('connect') > 0:
@@ -169,10 +173,14 @@ class Std(Scenario):
                             out.append(('inrel', a) + tuple(x))
                     if left('pingresp') > 0:
                         out.append(('pingresp', a))
+        def left(k):        # noqa -- events that belong to no address use the scenario-wide budgets
+            return B.get(k, 0) - u.get(k, 0)
         if left('setid') > 0:
             live = sorted(set(r.msgId for r in w.reqs if r.pending and r.msgId and r.kind in ('pub', 'sub', 'unsub')))
             if live:
                 out.append(('setid', 0, (live[0] - 1) % 65536))      # the counter comes round to the oldest live identifier
+                if live[0] == 1:
+                    out.append(('setid', 0, 65535))                  # ... through the 65535 -> (0) -> 1 wrap itself
                 if len(live) > 1 and live[-1] != live[0]:
                     out.append(('setid', 0, 65533))                  # ... or approaches the wrap from below
         if left('tick') > 0:
@@ -202,17 +210,19 @@ class Std(Scenario):
             if live and not transmitted and not self.ack_heldback:
                 continue
             kind = 'ack' if live else 'dack'
+            tgt = ('r', r.idx)
+            if r.kind == 'pub' and r.qos == 2 and live and r.acked('PUBREC') and left('dack') > 0:
+                out.append(('dack', a, 'PUBREC', tgt))        # the broker repeats a PUBREC already received
             if left(kind) <= 0:
                 continue
-            tgt = ('r', r.idx)
             if r.kind == 'pub':
                 if r.qos == 1:
                     out.append((kind, a, 'PUBACK', tgt))
                 elif r.qos == 2:
                     if live:
                         recd = r.acked('PUBREC')
-                        if not recd or left('dack') > 0:
-                            out.append(('ack' if not recd else 'dack', a, 'PUBREC', tgt))
+                        if not recd:
+                            out.append(('ack', a, 'PUBREC', tgt))
                         if recd or self.early_pubcomp:
                             out.append((kind, a, 'PUBCOMP', tgt))
                     else:
